@@ -54,8 +54,11 @@ def decorate(behaviours, seed, sweep_every, thorough):
         ballast = 0
         if i % 4 == 1:   # the next batches straddle a 32 KiB block boundary of the log
             ballast = 32768 * rnd.choice([1, 1, 2]) - rnd.randrange(0, 500)
+        fat = i % 24 == 5   # the ballast is one batch of three 32 KiB blocks (a multi-chunk record)
+        if fat:
+            ballast = 1
         out.append({"steps": steps,
-                    "opts": {"rseed": rnd.randrange(1 << 40), "ballast": ballast,
+                    "opts": {"rseed": rnd.randrange(1 << 40), "ballast": ballast, "fat": fat,
                              "sweep": (3 if thorough else 2) if i % sweep_every == 0 else 0,
                              "flips": 2 if thorough else 1, "subsets": thorough or i % 3 == 0}})
     return out
@@ -66,9 +69,11 @@ def run_parallel(ctx, binary, payload, procs):
     from concurrent.futures import ThreadPoolExecutor
     bs = payload["behaviours"]
     chunks = [bs[i::procs] for i in range(procs) if bs[i::procs]]
+    conc = payload.get("concurrent", 0)
     with ThreadPoolExecutor(max_workers=len(chunks)) as ex:
-        results = list(ex.map(lambda c: ctx.run_engine(binary, "TestWalReplay", dict(payload, behaviours=c),
-                                                       timeout=3000), chunks))
+        results = list(ex.map(lambda ic: ctx.run_engine(binary, "TestWalReplay",
+                                                        dict(payload, behaviours=ic[1], concurrent=conc if ic[0] < 2 else 0),
+                                                        timeout=3000), enumerate(chunks)))
     total = {"stats": {}, "steps": 0}
     for r in results:
         ctx.absorb(r, "wal", "TestWalReplay")
@@ -105,15 +110,17 @@ def run(ctx):
     for i in range(nruns):
         behaviours += ctx.tlc_simulate("consensus", "WalMBT.tla", "Wal_sim.cfg", depth=depth,
                                        seed=ctx.seed * 1000 + i, timeout=900)
-    payload = {"interval": MODEL_INTERVAL,
+    payload = {"interval": MODEL_INTERVAL, "concurrent": 6 if thorough else 2,
                "behaviours": decorate(behaviours, ctx.seed, 5 if thorough else 10, thorough)}
     res = run_parallel(ctx, binary, payload, int(os.environ.get("VERIF_ENGINE_PROCS", "6")))
     st = res.get("stats", {})
-    for need in ("cleanups", "failed_flushes", "crashes", "sweeps", "images_reopened"):
-        if not st.get(need):
-            raise vlib.Broken("vacuity: the replay exercised no %s" % need)
+    if not ctx.violations:   # vacuity guards never mask an observed violation
+        for need in ("cleanups", "failed_flushes", "crashes", "sweeps", "images_reopened", "concurrent_rounds",
+                     "concurrent_reads", "retained_entries_rechecked", "recovery_probes", "fat_batches"):
+            if not st.get(need):
+                raise vlib.Broken("vacuity: the replay exercised no %s" % need)
 
-    if thorough:
+    if thorough and not ctx.violations:
         # binding self-test: a corrupted expectation must be noticed
         victim = next((b for b in payload["behaviours"]
                        if any(s["a"]["name"] == "SyncOk" and any(s["live"]) for s in b["steps"])), None)
